@@ -50,25 +50,28 @@ def main():
     confirmed = rc == 0 and rc_d != 0 and "730 passed" in meta["tests_with_change"]
     meta["confirmed"] = confirmed
     print("confirmed:", confirmed, "| tests:", meta["tests_with_change"], "| demo without:", rc, "with:", rc_d)
-    # run our checks against it
-    rc_s, out_s = sh("git diff --quiet", cwd="/repo")
+    # run our checks against it: in the scratch worktree (VERIF_REPO), so that /repo stays untouched and several
+    # evaluations can run side by side (SEED_IN_REPO=1: apply to /repo itself, as the first rounds did)
+    in_repo = os.environ.get("SEED_IN_REPO") == "1"
+    target = "/repo" if in_repo else wt
+    rc_s, out_s = sh("git diff --quiet", cwd=target)
     if rc_s != 0:
-        print("/repo is dirty; aborting")
+        print(target, "is dirty; aborting")
         return 2
     verdicts = {}
     try:
-        rc_a, out_a = sh(f"git apply {diff}", cwd="/repo")
+        rc_a, out_a = sh(f"git apply {diff}", cwd=target)
         if rc_a != 0:
-            print("diff does not apply to /repo:", out_a)
+            print("diff does not apply to", target, out_a)
             return 2
         for cid in [pid] + extra:
-            rc_c, out_c = sh(f"./check {cid} --tier quick", cwd="/verif", timeout=3000)
+            rc_c, out_c = sh(f"./check {cid} --tier quick", cwd="/verif", env={"VERIF_REPO": target, "VERIF_WORK": f"{root}/work/{pid}_{n}", "VERIF_EVID": f"{root}/work/{pid}_{n}/evidence"}, timeout=3000)
             lines = [l for l in out_c.splitlines() if l.startswith(("OK", "VIOLATION", "MACHINERY", "  signature"))][:3]
             verdicts[cid] = {"rc": rc_c, "lines": lines}
             print(cid, "rc", rc_c, lines[:2])
-            meta["ran"].append(f"./check {cid} --tier quick")
+            meta["ran"].append(f"VERIF_REPO=<worktree with the change> ./check {cid} --tier quick")
     finally:
-        sh("git checkout -- .", cwd="/repo")
+        sh("git checkout -- . && git clean -fdq", cwd=target)
     meta["verdicts"] = verdicts
     meta["detected_by"] = [c for c, v in verdicts.items() if v["rc"] == 1]
     dst = f"/verif/seeded/{pid}_{tag}{n}"
